@@ -35,7 +35,7 @@ def replay_impl(scratch, lines, backend=None):
     try:
         for line in lines:
             if backend and line.startswith("init "):
-                w = line.split(" "); w[1] = backend; line = " ".join(w)
+                w = line.split(" "); w[1] = backend + (":" + w[1].split(":", 1)[1] if ":" in w[1] else ""); line = " ".join(w)
             res.append(impl.exec(line))
     finally:
         impl.close()
